@@ -46,6 +46,23 @@ pub fn dist_target(a: &[u8], b: &[u8]) -> Result<(u32, u32), String> {
     must("init_from", || t2.init_from(&h2))?;
     let d1 = must("block_hash_1().edit_distance", || t1.block_hash_1().edit_distance(b))?;
     let d2 = must("block_hash_2().edit_distance", || t2.block_hash_2().edit_distance(b))?;
+    // targets whose earlier hash held `a` in the *other* block hash and a same-length relative of it (every
+    // symbol + 1) in the one that is about to receive `a`
+    let sh: Vec<u8> = a.iter().map(|&x| (x + 1) % 64).collect();
+    let p3 = must("new_from_internals_near_raw", || LongFuzzyHash::new_from_internals_near_raw(3, &sh, a))?;
+    let p4 = must("new_from_internals_near_raw", || LongFuzzyHash::new_from_internals_near_raw(3, a, &sh))?;
+    let mut t3 = must("FuzzyHashCompareTarget::from", || FuzzyHashCompareTarget::from(&p3))?;
+    must("init_from", || t3.init_from(&h1))?;
+    let mut t4 = must("FuzzyHashCompareTarget::from", || FuzzyHashCompareTarget::from(&p4))?;
+    must("init_from", || t4.init_from(&h2))?;
+    let d3 = must("block_hash_1().edit_distance", || t3.block_hash_1().edit_distance(b))?;
+    let d4 = must("block_hash_2().edit_distance", || t4.block_hash_2().edit_distance(b))?;
+    if d3 != d1 || d4 != d2 {
+        return Err(format!(
+            "edit distance through a target that earlier held the string in its other block hash: {} / {} vs {} / {} (a={:?}, b={:?})",
+            d3, d4, d1, d2, a, b
+        ));
+    }
     Ok((d1, d2))
 }
 
